@@ -48,6 +48,23 @@ def rand_history(rng):
         nxt += 1
         return nxt - 1
 
+    # opening: a few connections of both kinds so that several sockets are ready at once later
+    for _ in range(rng.randrange(0, 4)):
+        if len(conns) >= npeers:
+            break
+        if rng.random() < 0.45:
+            i = new_id()
+            ops.append("client %d" % i)
+            conns[i] = dict(closed=False)
+        else:
+            if not accs or (len(accs) < 2 and rng.random() < 0.2):
+                a = new_id()
+                ops.append("acceptor %d" % a)
+                accs.append(a)
+            i = new_id()
+            ops.append("pconnect %d %d" % (rng.choice(accs), i))
+            conns[i] = dict(closed=False)
+            owed += 1
     for _ in range(rng.randrange(4, 40)):
         x = rng.random()
         live = [i for i, c in conns.items() if not c["closed"]]
@@ -95,7 +112,7 @@ def rand_history(rng):
 
 def gen(rng, tier):
     cases = []
-    count = 300 if tier == "quick" else 5000
+    count = 600 if tier == "quick" else 8000
     for k in range(count):
         cases.append(("aevents", "e%d" % k, rand_history(rng)))
     if tier == "thorough":
